@@ -39,6 +39,8 @@ inductive Out where
   | ok (s : Str)
   | panic
   | unmodelled
+  /-- `nf.unsupported()`: the section is not supported, `format` returns the stored value as it is -/
+  | fallback
   deriving DecidableEq, Repr
 
 structure Part where
@@ -328,7 +330,7 @@ def numberHandler (items : List Tok) (value : Str) (usePositive : Bool) (n : Num
   else
     let paddingLen := intLen + fracLen + (if fracLen > 0 then 1 else 0)
     if c.useSci then
-      if c.expBaseLen ≠ expBaseWant then .ok value
+      if c.expBaseLen ≠ expBaseWant then .fallback
       else
         let r := n.sci c.percent fracLen
         let r := if c.useCommaSep then printCommaSep r else r
@@ -545,7 +547,7 @@ def dtLoop (items : List Tok) (value : Str) (tm : TimeF) (loc : Str → Locale) 
   | (i, t) :: rest, st =>
     if t.ty = "CurrencyLanguage" then
       match currencyLanguageO d.sysDate.isSome d.sysTime.isSome t.parts st.currency st.localCode with
-      | (.err, _, _) => .ok value
+      | (.err, _, _) => .fallback
       | (.changed true, _, _) => d.sysDate.getD (.ok value)
       | (.changed false, _, _) => d.sysTime.getD (.ok value)
       | (.ok, cur, lc) =>
@@ -595,18 +597,18 @@ def positiveLoop (items : List Tok) (value : Str) (usePositive : Bool) (n : NumI
     else
       let fmtNum := fmtNum || isNumberTok t
       if isDateTok t then
-        if fmtNum || n.neg then .ok value
+        if fmtNum || n.neg then .fallback
         else match dateScan items false false with
-          | none => .ok value
+          | none => .fallback
           | some ms => dateTimeHandler items value ms d
       else positiveLoop items value usePositive n d ts fmtNum
 
 def positiveHandler (items : List Tok) (value : Str) (usePositive : Bool) (n : NumIn) (d : DateIn) : Out :=
-  if items.any (fun t => !isSupportedTy t.ty) then .ok value
+  if items.any (fun t => !isSupportedTy t.ty) then .fallback
   else positiveLoop items value usePositive n d items false
 
 def negativeHandler (items : List Tok) (value : Str) (usePositive : Bool) (n : NumIn) : Out :=
-  if items.any (fun t => !isSupportedTy t.ty || t.ty = "General" || isDateTok t) then .ok value
+  if items.any (fun t => !isSupportedTy t.ty || t.ty = "General" || isDateTok t) then .fallback
   else numberHandler items value usePositive n
 
 def textHandler (items : List Tok) (value : Str) : Str :=
@@ -626,6 +628,13 @@ def alignment (items : List Tok) (r : Str) : Str :=
 
 def Out.map (f : Str → Str) : Out → Out
   | .ok s => .ok (f s)
+  | o => o
+
+/-- the end of `format`: a rendering goes through alignmentHandler, a fall-back returns the stored
+value as it is -/
+def Out.finish (value : Str) (f : Str → Str) : Out → Out
+  | .ok s => .ok (f s)
+  | .fallback => .ok value
   | o => o
 
 /-- getValueSectionType: (section type, usePositive); `numeric` = cell type is number/date and
@@ -648,8 +657,8 @@ def format (secs : List Sec) (value : Str) (cellNumeric : Bool) (n : NumIn) (d :
   | none => .ok value
   | some (_, sec) =>
     if numeric then
-      if sec.ty = "Positive" then (positiveHandler sec.items value usePositive n d).map (alignment sec.items)
-      else (negativeHandler sec.items value usePositive n).map (alignment sec.items)
+      if sec.ty = "Positive" then (positiveHandler sec.items value usePositive n d).finish value (alignment sec.items)
+      else (negativeHandler sec.items value usePositive n).finish value (alignment sec.items)
     else .ok (alignment sec.items (textHandler sec.items value))
 
 /-! ## Spec: what the property demands of section selection -/
